@@ -73,8 +73,13 @@ class Target:
 
     @property
     def prior_bounds(self):
+        # a bound stored as a Python int is handed to aspire as an integer literal ({"x": [0, 10]}, as users write them)
+        def lit(v):
+            return int(v) if isinstance(v, int) and not isinstance(v, bool) else float(v)
+
         return {
-            self.NAMES[i]: (float(self.lower[i]), float(self.upper[i]))
+            self.NAMES[i]: ([lit(self.lower[i]), lit(self.upper[i])] if isinstance(self.lower[i], int) and isinstance(self.upper[i], int)
+                            else (float(self.lower[i]), float(self.upper[i])))
             for i in range(self.dims)
         }
 
